@@ -6,6 +6,7 @@ package binary
 import (
 	"math"
 
+	"github.com/efficientgo/core/errors"
 	"github.com/prometheus/prometheus/promql/parser"
 
 	"github.com/thanos-community/promql-engine/execution/model"
@@ -113,6 +114,10 @@ func newTable(
 	}
 }
 
+// errDuplicateLabelSet is what the Prometheus engine reports when the result of
+// an expression contains two samples with the same label set at one step.
+var errDuplicateLabelSet = errors.New("vector cannot contain metrics with the same labelset")
+
 func (t *table) execBinaryOperation(lhs model.StepVector, rhs model.StepVector, returnBool bool) (model.StepVector, error) {
 	step := t.pool.GetStepVector(lhs.T)
 	// Nothing is going to match if a side has no samples at this step. Like
@@ -171,6 +176,12 @@ func (t *table) execBinaryOperation(lhs model.StepVector, rhs model.StepVector, 
 				return model.StepVector{}, &errMultipleMatches{msg: errMsgOneToOneMultipleMatches}
 			}
 			t.matchStamps[group] = t.epoch
+			// Different match groups end up with the same result labels when they
+			// differ in the metric name only, as in x * on(__name__) y, and the
+			// operator removes the name.
+			if t.outputStamps[outputSampleID] == t.epoch {
+				return model.StepVector{}, errDuplicateLabelSet
+			}
 		} else {
 			// In many-to-one matching the grouping labels have to ensure a unique
 			// metric for the result vector.
